@@ -18,6 +18,7 @@ pub struct E57Writer<T: Read + Write + Seek> {
     extensions: Vec<Extension>,
     images: Vec<Image>,
     root: Root,
+    finalize_failed: bool,
 }
 
 impl<T: Write + Read + Seek> E57Writer<T> {
@@ -49,6 +50,7 @@ impl<T: Write + Read + Seek> E57Writer<T> {
             images: Vec::new(),
             extensions: Vec::new(),
             root,
+            finalize_failed: false,
         })
     }
 
@@ -151,6 +153,12 @@ impl<T: Write + Read + Seek> E57Writer<T> {
                 "XML sections larger than {MAX_XML_SIZE} bytes are not supported"
             ))?
         }
+        // A finalize that failed while writing leaves the writer at an unknown position
+        // (for example at the header), another attempt would overwrite earlier sections
+        if self.finalize_failed {
+            Error::invalid("An earlier finalize failed while writing, the file cannot be completed")?
+        }
+        self.finalize_failed = true;
         let xml_offset = self.writer.physical_position()?;
         self.writer
             .write_all(xml_bytes)
@@ -172,7 +180,9 @@ impl<T: Write + Read + Seek> E57Writer<T> {
         self.writer.physical_seek(phys_length)?;
         self.writer
             .flush()
-            .write_err("Failed to flush writer at the end")
+            .write_err("Failed to flush writer at the end")?;
+        self.finalize_failed = false;
+        Ok(())
     }
 }
 
